@@ -179,6 +179,8 @@ def run(ctx: Ctx):
                     ctx.count("wireless-iface-toggle-while-a-frame-is-in-the-air-on-its-channel")
                 if e["t"] == "R":
                     ctx.count("wireless:heard")
+                if e["t"] in ("J", "Q"):
+                    ctx.count("airspace-membership:" + ("added" if e["t"] == "J" else "removed"))
         for k, v in r.get("info", {}).items():
             ctx.count("observed:" + k, v)
         if "topo" in case and rig.ALT_NAME in case["topo"].get("freqs", []):
@@ -226,7 +228,8 @@ def run(ctx: Ctx):
         pre_sig = json.dumps(_oracle_sig(orc[0]) if orc else {"kind": "model-vs-impl", "line": (r["lines"][di] if di < len(r["lines"]) else "?").split()[0]},
                              sort_keys=True)
         failing_by_sig[pre_sig] = failing_by_sig.get(pre_sig, 0) + 1
-        ctx.count("failing-trace:" + (orc[0]["kind"] if orc else "model-vs-impl"))
+        for kd in sorted({o["kind"] for o in orc} or {"model-vs-impl"}):
+            ctx.count("failing-trace:" + kd)
         if failing_by_sig[pre_sig] > SHRINK_PER_SIG or shrink_spent[0] > SHRINK_WALL:
             if failing_by_sig[pre_sig] > SHRINK_PER_SIG:
                 continue            # same class as a trace already minimised and reported
@@ -247,9 +250,14 @@ def run(ctx: Ctx):
             shrink_spent[0] += time.time() - t1
             ctx.cov["search_wall_s"] = round(shrink_spent[0], 2)
         if orc2:
-            o = orc2[0]
-            ctx.violation(_oracle_sig(o), f"{o['kind']} ({o.get('medium', '-')}) at op {o['op']} {small['ops'][o['op']]}: {json.dumps(o)}",
-                          {"case": small, "oracle": orc2[:5], "lines": r2["lines"], "impl": r2["impl"], "from": name})
+            seen_kinds = set()
+            for o in orc2:          # one report per distinct oracle kind the (minimised) trace breaks
+                if o["kind"] in seen_kinds:
+                    continue
+                seen_kinds.add(o["kind"])
+                ctx.violation(_oracle_sig(o), f"{o['kind']} ({o.get('medium', '-')}) at op {o['op']} "
+                              f"{small['ops'][o['op']] if 0 <= o['op'] < len(small['ops']) else '-'}: {json.dumps(o)}",
+                              {"case": small, "oracle": orc2[:5], "lines": r2["lines"], "impl": r2["impl"], "from": name})
         else:
             q = r2["lines"][di2] if di2 < len(r2["lines"]) else "?"
             what = ("the far interface's answer differs from C08's acceptance model (farAnswer)" if q.startswith("far ")
